@@ -420,6 +420,14 @@ class InstanceWriteProvider(BaseProvider):
                             prop.value != original_instance[pn]:
                         self.validate_reference_property_endpoint_exists(prop,)
 
+        # The namespaces the reference properties defined before the
+        # modification (other than the namespace of this request)
+        old_assoc_namespaces = []
+        if self.is_association(creation_class):
+            old_assoc_namespaces = \
+                self.find_multins_association_ref_namespaces(
+                    original_instance, namespace) or []
+
         # Update the properties in the original instance from properties
         # in the modified instance
         original_instance.update(modified_instance.properties)
@@ -429,19 +437,34 @@ class InstanceWriteProvider(BaseProvider):
         # If association class and reference properties define multiple
         # namespaces, modify instance in each namespace defined in the
         # instance.
+        assoc_namespaces = []
         if self.is_association(creation_class):
             assoc_namespaces = self.find_multins_association_ref_namespaces(
-                original_instance, namespace)
-            if assoc_namespaces:
-                # It is a multi-namespace association instance. Validate
-                # characteristics of other namespaces and insert the same
-                # instance in each of these namespaces with specific path.
-                self.modify_multi_namespace_instance(
-                    original_instance, assoc_namespaces)
-                return
+                original_instance, namespace) or []
+        instance_path = original_instance.path.copy()
+        if assoc_namespaces:
+            # It is a multi-namespace association instance. Validate
+            # characteristics of other namespaces and insert the same
+            # instance in each of these namespaces with specific path.
+            self.modify_multi_namespace_instance(
+                original_instance, list(assoc_namespaces))
+        else:
+            # Replace the instance in the CIM repository with the local copy.
+            instance_store.update(original_instance.path, original_instance)
 
-        # Replace the instance in the CIM repository with the local copy.
-        instance_store.update(original_instance.path, original_instance)
+        # Remove the copies of the instance in the namespaces its reference
+        # properties do not define any more, so that no copy with the old
+        # property values stays behind.
+        new_namespaces = [ns.lower() for ns in assoc_namespaces]
+        for ns in old_assoc_namespaces:
+            if ns.lower() not in new_namespaces:
+                instance_path.namespace = ns
+                try:
+                    old_store = self.cimrepository.get_instance_store(ns)
+                except KeyError:
+                    continue
+                if old_store.object_exists(instance_path):
+                    old_store.delete(instance_path)
 
     def DeleteInstance(self, InstanceName):
         """
